@@ -2914,7 +2914,10 @@ class Parameters:
                 if not any(function == f for f in ran):
                     ran.append(function)
                     return function()
-            partial(fn.func, **dict(fn.keywords, function=once))(*args, **kwargs)
+            try:
+                partial(fn.func, **dict(fn.keywords, function=once))(*args, **kwargs)
+            except Skip:
+                pass
             return
 
         if iscoroutinefunction(watcher.fn):
